@@ -1138,12 +1138,82 @@ class FunctionVerifier:
             out.extend(self.exec_block(node.body, s_t))
         s_f = st
         nc = z3.Not(c)
+        n_prefix = len(st.assumes)
+        out_t = out
+        out = []
         if self.feasible(st, nc):
             if key:
                 self.branches[key][1] = True
             s_f.assume(nc)
             out.extend(self.exec_block(node.orelse, s_f) if node.orelse else [(s_f, FALL)])
-        return out
+        if self.cd.options.get("merge_branches") and len(out_t) == 1 and len(out) == 1 and out_t[0][1] == FALL and out[0][1] == FALL and not st.guards:
+            m = self.merge_states(c, out_t[0][0], out[0][0], n_prefix)
+            if m is not None:
+                return [(m, FALL)]
+        return out_t + out
+
+    def merge_value(self, c, a, b):
+        if a is b:
+            return a
+        if isinstance(a, SNone) and isinstance(b, SNone):
+            return a
+        if isinstance(a, SArr) and isinstance(b, SArr):
+            if a.loc == b.loc and len(a.prefix) == len(b.prefix) and all(x.eq(y) for x, y in zip(a.prefix, b.prefix)):
+                return a
+            return None
+        if isinstance(a, (SRange, SDtype, SStr, SFunc)):
+            return a if type(a) is type(b) and a is b else None
+        if isinstance(a, STuple) and isinstance(b, STuple) and len(a.items) == len(b.items):
+            items = [self.merge_value(c, x, y) for x, y in zip(a.items, b.items)]
+            return None if any(i is None for i in items) else STuple(items)
+        if isinstance(a, (SInt, SBool, SFloat)) and isinstance(b, (SInt, SBool, SFloat)):
+            try:
+                if isinstance(a, SInt) and isinstance(b, SInt) and a.e.eq(b.e):
+                    return a
+                return self.ite(c, a, b)
+            except VerifError:
+                return None
+        if isinstance(a, SArrVal) and isinstance(b, SArrVal):
+            return a if all(a.comps[k].eq(b.comps[k]) for k in a.comps) else self.ite(c, a, b)
+        return None
+
+    def merge_states(self, c, sa, sb, n_prefix):
+        """join of the two branches of an `if` (both fell through): values become ite terms, the
+        branch-local facts are kept under the branch condition"""
+        env = {}
+        for k in set(sa.env) | set(sb.env):
+            if k in sa.env and k in sb.env:
+                v = self.merge_value(c, sa.env[k], sb.env[k])
+                if v is None:
+                    return None
+                env[k] = v
+            else:
+                env[k] = sa.env.get(k, sb.env.get(k))
+        heap = {}
+        for loc in set(sa.heap) | set(sb.heap):
+            if loc in sa.heap and loc in sb.heap:
+                oa, ob = sa.heap[loc], sb.heap[loc]
+                comps = {}
+                for cn in oa.comps:
+                    comps[cn] = oa.comps[cn] if oa.comps[cn].eq(ob.comps[cn]) else z3.If(c, oa.comps[cn], ob.comps[cn])
+                heap[loc] = oa.with_comps(comps)
+            else:
+                heap[loc] = sa.heap.get(loc, sb.heap.get(loc))
+        m = sa.fork()
+        m.env = env
+        m.heap = heap
+        m.assumes = list(sa.assumes[:n_prefix])
+        nc = z3.Not(c)
+        for f in sa.assumes[n_prefix:]:
+            if not f.eq(c):
+                m.assumes.append(z3.Implies(c, f))
+        for f in sb.assumes[n_prefix:]:
+            if not f.eq(nc):
+                m.assumes.append(z3.Implies(nc, f))
+        m.funcs = dict(sb.funcs)
+        m.funcs.update(sa.funcs)
+        m.pending_ovf = []
+        return m
 
     def if_ordinal(self, node):
         if id(node) not in self.if_ids:
@@ -1155,22 +1225,48 @@ class FunctionVerifier:
         return self.loop_ids[id(node)]
 
     def havoc(self, st, names, stores, promote):
+        """loop-head havoc: every variable assigned in the body and every array the body may write.
+        The arrays are found (a) syntactically -- names stored into / passed to a modifying callee
+        -- and (b) semantically: locations whose
+        heap value changed in the dry run of the body (self.loop_written, see body_types), which covers
+        writes through views bound inside the loop (genotype = genotypes[t]; f(genotype))."""
+        targets = []
         for n in names:
             if n not in st.env:
                 continue
             v = st.env[n]
             st.env[n] = self.havoc_value(st, n, v, promote.get(n))
-        done = set()
-        for n in stores:
+        for n in sorted(stores):
             v = st.env.get(n)
-            if isinstance(v, SArr) and v.loc not in done:
+            if isinstance(v, SArr):
+                targets.append(v)
+            elif isinstance(v, STuple):
+                targets.extend(it for it in v.items if isinstance(it, SArr))
+        done = set()
+        whole = set(promote.get("!written", ()))
+        for loc in sorted(whole):
+            if loc in st.heap:
+                done.add(loc)
+                self.havoc_array(st, SArr(loc, ()))
+        for v in targets:
+            if v.loc not in done and v.loc in st.heap:
                 done.add(v.loc)
                 self.havoc_array(st, v)
-            elif isinstance(v, STuple):
-                for it in v.items:
-                    if isinstance(it, SArr) and it.loc not in done:
-                        done.add(it.loc)
-                        self.havoc_array(st, it)
+        return done
+
+    @staticmethod
+    def changed_locs(pre_heap, states):
+        """locations of pre_heap whose contents differ in some of `states`"""
+        res = set()
+        for loc, o in pre_heap.items():
+            for s2 in states:
+                o2 = s2.heap.get(loc)
+                if o2 is None or o2 is o:
+                    continue
+                if any(not o.comps[c].eq(o2.comps[c]) for c in o.comps):
+                    res.add(loc)
+                    break
+        return res
 
     def havoc_array(self, st, a):
         o = st.heap[a.loc]
@@ -1266,16 +1362,21 @@ class FunctionVerifier:
         self.loop_newvars = {}
         self.dry += 1
         try:
-            for _ in range(3):
+            for _ in range(8):
                 s = st.fork()
-                self.havoc(s, names, stores, promote)
+                havoced = self.havoc(s, names, stores, promote)
                 setup(s)
                 pre_keys = set(s.env)
                 pre_types = {n: type(s.env[n]) for n in names if n in s.env}
+                pre_heap = dict(s.heap)
                 res = []
                 for s_h in self.run_ghost(ls.head, s):
                     res.extend(self.exec_block(node.body, s_h))
                 changed = False
+                extra = self.changed_locs(pre_heap, [s2 for s2, _ in res]) - havoced
+                if extra:
+                    promote["!written"] = set(promote.get("!written", ())) | extra
+                    changed = True
                 for s2, oc in res:
                     for n in names:
                         if n not in pre_keys and n in s2.env and n not in self.loop_newvars:
@@ -1288,6 +1389,8 @@ class FunctionVerifier:
                                 changed = True
                 if not changed:
                     break
+            else:
+                raise VerifError("loop dry run did not reach a fixed point of written locations / types")
         finally:
             self.dry -= 1
         return promote
